@@ -2268,6 +2268,17 @@ pub fn apply_to_fn(
         }
         let mut p = DemoteMutPass { names: &cfg.demote_mut, counts };
         p.visit_block_mut(&mut f.block);
+        // the items handed out by such a function (`impl Iterator<Item = &mut T>`) are demoted with it
+        if let syn::ReturnType::Type(_, t) = &mut f.sig.output {
+            struct StripMut;
+            impl VisitMut for StripMut {
+                fn visit_type_reference_mut(&mut self, r: &mut syn::TypeReference) {
+                    r.mutability = None;
+                    visit_mut::visit_type_reference_mut(self, r);
+                }
+            }
+            StripMut.visit_type_mut(t);
+        }
     }
     // R1 / R6
     {
